@@ -92,6 +92,7 @@ pub fn scenarios() -> Vec<(&'static str, fn() -> Option<String>)> {
         ("hash-mismatch-changes-nothing (C10)", sc_hash_mismatch),
         ("get-announces-what-it-streams (C10, H11)", sc_get_consistent),
         ("lock-file-is-not-client-addressable (C03, H12)", sc_lock_file_addressable),
+        ("committed-content-is-the-streamed-content (C10)", sc_content_shapes),
     ]
 }
 
@@ -284,6 +285,30 @@ fn sc_get_consistent() -> Option<String> {
     res
 }
 
+fn sc_content_shapes() -> Option<String> {
+    // content shapes a writer might special-case: zero runs at the start, in the middle and at the END, sizes at and around
+    // the 256 KiB chunk, empty content. Committed means: the live bytes ARE the streamed bytes, and Get says so.
+    let r = root("shapes"); let mut s = Srv::start(&r)?; s.magic();
+    let k = 256 * 1024;
+    let mut shapes: Vec<(String, Vec<u8>)> = vec![("empty".into(), vec![]), ("one".into(), vec![7]), ("zeros-only".into(), vec![0; k + 5])];
+    let mut v = vec![1u8; 4096]; v.extend(vec![0u8; 4 * k]); shapes.push(("data-then-zero-tail".into(), v));
+    let mut v = vec![0u8; 2 * k]; v.extend(b"tail"); shapes.push(("zero-head-then-data".into(), v));
+    let mut v = b"head".to_vec(); v.extend(vec![0u8; 3 * k]); v.extend(b"tail"); shapes.push(("zero-middle".into(), v));
+    for d in [-1i64, 0, 1] { shapes.push((format!("chunk{d:+}"), (0..(k as i64 + d) as usize).map(|i| (i % 251) as u8).collect())); }
+    let mut res = None;
+    for (name, c) in &shapes {
+        match s.put(name, None, c) {
+            Some(Response::PutResult { committed: true, .. }) => {
+                let live = std::fs::read(r.join(name)).ok();
+                if live.as_deref() != Some(&c[..]) { res = Some(format!("Put `{name}` ({} bytes) was acknowledged committed:true with the declared hash, but the live file holds {} bytes that are not the streamed content (C10)", c.len(), live.map(|b| b.len()).unwrap_or(0))); break; }
+                match s.get(name) { Some((len, hash, body)) if len as usize == c.len() && hash == h(c) && &body == c => {}, o => { res = Some(format!("Get `{name}` after a committed Put does not return the verified content: {:?} (C10)", o.map(|(l, _, b)| (l, b.len())))); break; } }
+            }
+            o => { res = Some(format!("a well-formed Put `{name}` ({} bytes) on a fresh path was not committed: {o:?} (C10)", c.len())); break; }
+        }
+    }
+    let _ = s.close_and_wait(5);
+    res
+}
 fn sc_lock_file_addressable() -> Option<String> {
     // schedule: S2 has OPENED the commit lock file and is delayed (strace) before flock(); meanwhile a client asks a third
     // server to Delete `.copia/commit.lock` (expected = hash of the empty file). S2 then locks the unlinked inode, and is
